@@ -831,6 +831,8 @@ class MemoryPathIO(AbstractPathIO):
 
     @universal_exception
     async def rename(self, source, destination):
+        if self.get_node(source) is None:
+            raise FileNotFoundError
         if source != destination:
             sparent = self.get_node(source.parent)
             dparent = self.get_node(destination.parent)
